@@ -172,9 +172,14 @@ def verify_tpm(
     # [TPMv2-Part2] section 10.12.3, whose name field contains a valid Name for
     # pubArea, as computed using the algorithm in the nameAlg field of pubArea using
     # the procedure specified in [TPMv2-Part1] section 16.
+    pub_area_name_alg = TPM_ALG_COSE_ALG_MAP.get(pub_area.name_alg)
+    if pub_area_name_alg is None:
+        raise InvalidRegistrationResponse(
+            f'Unsupported PubArea nameAlg "{pub_area.name_alg}" (TPM)'
+        )
     pub_area_hash = hash_by_alg(
         attestation_statement.pub_area,
-        TPM_ALG_COSE_ALG_MAP[pub_area.name_alg],
+        pub_area_name_alg,
     )
 
     # The Name's algorithm identifier must be pubArea's nameAlg, not whatever the Name itself claims
